@@ -11,38 +11,60 @@ Every statement of a method body (docstrings, `print`s guarded by `silence_level
 source text (`ast.unparse`) — against the table below; a statement that is not in the table
 becomes `.other "<source>"`, which the interpreter of the model (`Model/SimilarityScript.lean`)
 cannot execute, so the tie theorems `script_*` of Properties/C09.lean fail to compile.
+
+Round 4 — the match is made robust against *harmless* refactorings by normalising each method
+before the table lookup (`normalise`):
+  * trivial getters are inlined: `self.threshold()` -> `self._threshold`, `self.non_local()` ->
+    `self._non_local`, `self.similarity_measure()` -> `self._similarity_measure` — only if the body
+    of the getter in the current source *is* `return self._x` (checked here; otherwise nothing is
+    inlined and the scripts degrade to `.other`)
+  * keyword arguments of every call are sorted by name
+  * local variables (names bound in the method that are not parameters) are renamed `_v0, _v1, …`
+    in order of first binding
+  * a table value may be a list of statements (an inlined temporary), several source forms may map
+    to the same statement (early-return guard, swapped branches, positional flag)
+A change of *meaning* (another selection of entries, a missing call, a flag not stored, an
+accessor used without being called, a different index) still yields `.other` or another script.
 """
 import ast
 import os
 import sys
 
+sys.path.insert(0, os.path.dirname(os.path.abspath(__file__)))
+import gen_arith as GA  # noqa: E402  (the expression translator, used as a library)
+
 REPO = os.environ.get("VERIF_REPO", "/repo")
 OUT = sys.argv[1]
 
-GEO = ("GeoNetwork.__init__(self, adjacency={}, grid=self.grid, directed=self.directed, "
+# all keys are in normalised form: getters inlined, keyword arguments sorted, locals `_v<k>`
+GEO = ("GeoNetwork.__init__(self, adjacency={}, directed=self.directed, grid=self.grid, "
        "node_weight_type=self.node_weight_type, silence_level=self.silence_level)")
 MASK = "self.adjacency = self.adjacency * (self.phase_shift() > 0)"
-QIDX = "threshold = flat_corr[min(int((1 - link_density) * len(flat_corr)), len(flat_corr) - 1)]"
+QIDX = "_v2 = _v1[min(int((1 - link_density) * len(_v1)), len(_v1) - 1)]"
+NLA = "self._calculate_non_local_adjacency(_v0, threshold)"
+THA = "self._calculate_threshold_adjacency(_v0, threshold)"
 
 TABLE = {
     # ClimateNetwork.set_threshold
     "self._threshold = threshold": ".storeThreshold .arg",
-    "similarity = self.similarity_measure()": ".loadSimilarity",
-    ("if self.non_local():\n"
-     "    A = self._calculate_non_local_adjacency(similarity, threshold)\n"
-     "else:\n"
-     "    A = self._calculate_threshold_adjacency(similarity, threshold)"): ".computeAdjacency",
-    GEO.format("A"): ".geoInitLocal",
+    "_v0 = self._similarity_measure": ".loadSimilarity",
+    f"if self._non_local:\n    _v1 = {NLA}\nelse:\n    _v1 = {THA}": ".computeAdjacency",
+    f"if not self._non_local:\n    _v1 = {THA}\nelse:\n    _v1 = {NLA}": ".computeAdjacency",
+    f"_v1 = {NLA} if self._non_local else {THA}": ".computeAdjacency",
+    GEO.format("_v1"): ".geoInitLocal",
     GEO.format("self.adjacency"): ".geoInitSelf",
     # set_link_density
-    "threshold = self.threshold_from_link_density(link_density)": ".thresholdFromDensity",
-    "self.set_threshold(threshold)": ".callSetThreshold .localThreshold",
+    "_v0 = self.threshold_from_link_density(link_density)": ".thresholdFromDensity",
+    "self.set_threshold(_v0)": ".callSetThreshold .localThreshold",
+    "self.set_threshold(self.threshold_from_link_density(link_density))":
+        [".thresholdFromDensity", ".callSetThreshold .localThreshold"],
     # set_non_local (body of the guard)
     "self._non_local = non_local": ".storeNonLocal",
-    "self.set_threshold(self.threshold())": ".callSetThreshold .selfThreshold",
+    "self.set_threshold(self._threshold)": ".callSetThreshold .selfThreshold",
     # __init__
     "self.directed = directed": ".storeDirectedArg",
     "self._similarity_measure = np.abs(similarity_measure.astype('float32'))": ".storeSimilarityAbs",
+    "self._similarity_measure = np.abs(similarity_measure.astype(np.float32))": ".storeSimilarityAbs",
     ("if threshold is not None:\n"
      "    self.set_threshold(threshold)\n"
      "elif link_density is not None:\n"
@@ -51,31 +73,42 @@ TABLE = {
      "    print('Either threshold or link_density have to be prescribed for network "
      "construction!')"): ".dispatchInit",
     # _regenerate_network
-    ("ClimateNetwork.__init__(self, grid=self.grid, similarity_measure=self._similarity_measure, "
-     "threshold=self._threshold, link_density=self.link_density, non_local=self._non_local, "
-     "directed=self.directed, node_weight_type=self.node_weight_type, "
-     "silence_level=self.silence_level)"): ".callInitWithStored",
+    ("ClimateNetwork.__init__(self, directed=self.directed, grid=self.grid, "
+     "link_density=self.link_density, node_weight_type=self.node_weight_type, "
+     "non_local=self._non_local, silence_level=self.silence_level, "
+     "similarity_measure=self._similarity_measure, threshold=self._threshold)"): ".callInitWithStored",
     # threshold_from_link_density
-    "flat_corr = similarity[~np.eye(similarity.shape[0], dtype=bool)]": ".select .offDiagonal",
-    "flat_corr = similarity[np.triu_indices(similarity.shape[0], k=1)]": ".select .upperTriangle",
-    "flat_corr = similarity.flatten()": ".select .all",
-    "flat_corr.sort()": ".sortAscending",
+    "_v1 = _v0[~np.eye(_v0.shape[0], dtype=bool)]": ".select .offDiagonal",
+    "_v1 = _v0[np.triu_indices(_v0.shape[0], k=1)]": ".select .upperTriangle",
+    "_v1 = _v0.flatten()": ".select .all",
+    "_v1.sort()": ".sortAscending",
     QIDX: ".indexQuantile",
-    "return threshold": ".returnThreshold",
+    "return _v2": ".returnThreshold",
+    # link_density_function
+    "_v0, _v1 = np.histogram(self._similarity_measure, bins=n_bins)": ".histogramAll",
+    "(_v0, _v1) = np.histogram(self._similarity_measure, bins=n_bins)": ".histogramAll",
+    "_v0 = _v0.astype('float64')": ".histToFloat",
+    "_v0 /= _v0.sum()": ".histNormalise",
+    "_v2 = np.empty(n_bins)": ".allocResult",
+    "for _v3 in range(n_bins):\n    _v2[_v3] = _v0[:_v3].sum()": ".cumulativeLoop",
+    "return (_v2, _v1)": ".returnLdf",
     # HilbertClimateNetwork
     "ClimateNetwork.set_threshold(self, threshold)": ".parentSetThreshold",
     "if self.directed:\n    " + MASK: ".maskIfSelfDirected",
     "if directed:\n    " + MASK: ".maskIfArgDirected",
     "self._set_directed(directed, calculate_coherence=True)": ".callSetDirectedInternal true",
     "self._set_directed(directed, calculate_coherence=False)": ".callSetDirectedInternal false",
+    "self._set_directed(directed, True)": ".callSetDirectedInternal true",
+    "self._set_directed(directed, False)": ".callSetDirectedInternal false",
+    "self._set_directed(directed)": ".callSetDirectedInternal true",
     "self._regenerate_network()": ".callRegenerate",
-    "results = self._calculate_hilbert_correlation(self.data.anomaly())": ".computeCoherence",
-    "self._similarity_measure = results[0]": ".storeCoherenceSim",
-    "self._coherence_phase = results[1]": ".storePhase",
-    ("ClimateNetwork.__init__(self, grid=self.data.grid, "
-     "similarity_measure=self._similarity_measure, threshold=threshold, "
-     "link_density=link_density, non_local=non_local, directed=directed, "
-     "node_weight_type=node_weight_type, silence_level=silence_level)"): ".callClimateInit",
+    "_v0 = self._calculate_hilbert_correlation(self.data.anomaly())": ".computeCoherence",
+    "self._similarity_measure = _v0[0]": ".storeCoherenceSim",
+    "self._coherence_phase = _v0[1]": ".storePhase",
+    ("ClimateNetwork.__init__(self, directed=directed, grid=self.data.grid, "
+     "link_density=link_density, node_weight_type=node_weight_type, non_local=non_local, "
+     "silence_level=silence_level, similarity_measure=self._similarity_measure, "
+     "threshold=threshold)"): ".callClimateInit",
 }
 
 # bookkeeping statements without influence on similarity / threshold / flags / adjacency
@@ -87,6 +120,81 @@ SKIP = {
     "self._coherence_phase = None", "self.data: ClimateData = data", "self.N = data.grid.N",
     "self._threshold = threshold  # hilbert-init", "self._prescribed_link_density = link_density",
 }
+
+
+GETTERS = {}      # accessor name -> attribute, filled from the current source by read_getters
+
+
+def read_getters(tree, cls):
+    """`def threshold(self): return self._threshold` and the like: only a body that is exactly
+    `return self._x` (optionally wrapped in try/except AttributeError: raise …) is inlined"""
+    c = [n for n in tree.body if isinstance(n, ast.ClassDef) and n.name == cls][0]
+    for name, attr in (("threshold", "_threshold"), ("non_local", "_non_local"),
+                       ("similarity_measure", "_similarity_measure")):
+        fs = [n for n in c.body if isinstance(n, ast.FunctionDef) and n.name == name]
+        if len(fs) != 1 or len(fs[0].args.args) != 1:
+            continue
+        real = [st for st in fs[0].body if not is_noise(st)]
+        if len(real) == 1 and isinstance(real[0], ast.Try) and len(real[0].body) == 1 \
+                and all(isinstance(h.type, ast.Name) and h.type.id == "AttributeError"
+                        and len(h.body) == 1 and isinstance(h.body[0], ast.Raise)
+                        for h in real[0].handlers) and not real[0].orelse and not real[0].finalbody:
+            real = real[0].body
+        if len(real) == 1 and isinstance(real[0], ast.Return) \
+                and ast.unparse(real[0].value) == "self." + attr:
+            GETTERS[name] = attr
+
+
+class Normalise(ast.NodeTransformer):
+    def __init__(self, params):
+        self.params = set(params)
+        self.locals = {}
+
+    def visit_Call(self, node):
+        self.generic_visit(node)
+        f = node.func
+        if isinstance(f, ast.Attribute) and isinstance(f.value, ast.Name) and f.value.id == "self" \
+                and f.attr in GETTERS and not node.args and not node.keywords:
+            return ast.copy_location(
+                ast.Attribute(value=ast.Name(id="self", ctx=ast.Load()), attr=GETTERS[f.attr],
+                              ctx=ast.Load()), node)
+        if all(k.arg is not None for k in node.keywords):
+            node.keywords.sort(key=lambda k: k.arg)
+        return node
+
+    def visit_Name(self, node):
+        if node.id in self.locals:
+            node.id = self.locals[node.id]
+        return node
+
+
+def bound_names(f):
+    """names bound in the method body (assignment / for / with targets), in source order"""
+    out = []
+
+    class V(ast.NodeVisitor):
+        def visit_Name(self, n):
+            if isinstance(n.ctx, ast.Store) and n.id not in out:
+                out.append(n.id)
+
+        def visit_FunctionDef(self, n):      # nested definitions keep their own scope
+            pass
+        visit_Lambda = visit_FunctionDef
+    for st in f.body:
+        V().visit(st)
+    return out
+
+
+def normalise(f):
+    """-> list of normalised statements of the method body"""
+    params = [a.arg for a in f.args.args + f.args.kwonlyargs]
+    nz = Normalise(params)
+    k = 0
+    for name in bound_names(f):
+        if name not in params:
+            nz.locals[name] = f"_v{k}"
+            k += 1
+    return [ast.fix_missing_locations(nz.visit(st)) for st in f.body]
 
 
 def is_noise(st):
@@ -116,7 +224,8 @@ def script(body, hilbert_init=False):
             continue          # overwritten by set_threshold inside ClimateNetwork.__init__
         if src in SKIP:
             continue
-        out.append(TABLE.get(src, ".other " + lit(src)))
+        v = TABLE.get(src, ".other " + lit(src))
+        out.extend(v if isinstance(v, list) else [v])
     return out
 
 
@@ -125,21 +234,28 @@ def method(tree, cls, name):
     return [n for n in c.body if isinstance(n, ast.FunctionDef) and n.name == name][0]
 
 
-def guarded(f, test):
-    """body of a method whose only real statement is `if <test>: ...` without else:
-    -> [.returnUnless…] + script of the body; otherwise everything is `.other`"""
-    real = [st for st in f.body if not is_noise(st)]
+def guarded(f, tests, negtests):
+    """body of a method whose only real statement is `if <test>: ...` without else — or which
+    starts with the early return `if <negated test>: return` —
+    -> [.returnUnless…] + script of the guarded statements; otherwise everything is `.other`"""
+    real = [st for st in normalise(f) if not is_noise(st)]
     if len(real) == 1 and isinstance(real[0], ast.If) and not real[0].orelse \
-            and ast.unparse(real[0].test) == test:
+            and ast.unparse(real[0].test) in tests:
         return [".returnUnlessNonLocalChanged"] + script(real[0].body)
+    if real and isinstance(real[0], ast.If) and not real[0].orelse \
+            and ast.unparse(real[0].test) in negtests and len(real[0].body) == 1 \
+            and isinstance(real[0].body[0], ast.Return) and real[0].body[0].value is None:
+        return [".returnUnlessNonLocalChanged"] + script(real[1:])
     return [".other " + lit(ast.unparse(st)) for st in real]
 
 
 def branches(f, test):
     """(then-script, else-script) of a method consisting of one `if <test>: … else: …`"""
-    real = [st for st in f.body if not is_noise(st)]
+    real = [st for st in normalise(f) if not is_noise(st)]
     if len(real) == 1 and isinstance(real[0], ast.If) and ast.unparse(real[0].test) == test:
         return script(real[0].body), script(real[0].orelse)
+    if len(real) == 1 and isinstance(real[0], ast.If) and ast.unparse(real[0].test) == "not " + test:
+        return script(real[0].orelse), script(real[0].body)
     bad = [".other " + lit(ast.unparse(st)) for st in real]
     return bad, bad
 
@@ -185,36 +301,87 @@ inductive Stmt where
   | storeCoherenceSim
   | storePhase
   | callClimateInit
+  | histogramAll
+  | histToFloat
+  | histNormalise
+  | allocResult
+  | cumulativeLoop
+  | returnLdf
   | other (src : String)
   deriving DecidableEq, Repr
 '''
+
+
+def quantile_index(f):
+    """the index expression of `threshold_from_link_density`, found *structurally* in the normalised
+    body — `<v> = <sorted>[<expr>]` where `<sorted>` is the local `.sort()` was called on — and
+    translated by gen_arith's expression translator (round 4: independent of the names of the
+    locals; `len(<sorted>)` becomes the parameter `len_sorted`)"""
+    body = [st for st in normalise(f) if not is_noise(st)]
+    srt = [st.value.func.value.id for st in body
+           if isinstance(st, ast.Expr) and isinstance(st.value, ast.Call)
+           and isinstance(st.value.func, ast.Attribute) and st.value.func.attr == "sort"
+           and isinstance(st.value.func.value, ast.Name) and not st.value.args]
+    if len(srt) != 1:
+        return "-- UNTRANSLATABLE thrIndex: no unique `<local>.sort()` statement\n"
+    cands = [st.value.slice for st in body
+             if isinstance(st, ast.Assign) and isinstance(st.value, ast.Subscript)
+             and isinstance(st.value.value, ast.Name) and st.value.value.id == srt[0]]
+    if len(cands) != 1:
+        return "-- UNTRANSLATABLE thrIndex: no unique `<v> = <sorted>[<expr>]` statement\n"
+    item = {"params": [["link_density", "Rat"], ["len_sorted", "Int"]],
+            "rename": {"len_" + srt[0]: "len_sorted"}}
+    try:
+        text, ty = GA.Tr(item).tr(cands[0])
+    except GA.Untranslatable as e:
+        return f"-- UNTRANSLATABLE thrIndex: {e}\n"
+    if ty != "Int":
+        return f"-- UNTRANSLATABLE thrIndex: expression is {ty}\n"
+    return ("/-- the index into the sorted similarities in `ClimateNetwork.threshold_from_link_density`: `"
+            + ast.unparse(cands[0]).replace(srt[0], "sorted") + "` -/\n"
+            f"def thrIndex (link_density : Rat) (len_sorted : Int) : Int :=\n  {text}\n")
 
 
 def main():
     base = os.path.join(REPO, "src/pyunicorn/climate")
     cn = ast.parse(open(os.path.join(base, "climate_network.py")).read())
     hi = ast.parse(open(os.path.join(base, "hilbert.py")).read())
+    read_getters(cn, "ClimateNetwork")
     defs = []
 
     def emit(name, where, items):
         defs.append(f"/-- `{where}` -/\ndef {name} : List Stmt :=\n  [" + ",\n   ".join(items) + "]\n")
 
     C = "ClimateNetwork"
-    emit("setThreshold", f"{C}.set_threshold", script(method(cn, C, "set_threshold").body))
-    emit("setLinkDensity", f"{C}.set_link_density", script(method(cn, C, "set_link_density").body))
+    emit("setThreshold", f"{C}.set_threshold", script(normalise(method(cn, C, "set_threshold"))))
+    emit("setLinkDensity", f"{C}.set_link_density",
+         script(normalise(method(cn, C, "set_link_density"))))
     emit("setNonLocal", f"{C}.set_non_local",
-         guarded(method(cn, C, "set_non_local"), "self.non_local() != non_local"))
-    emit("init", f"{C}.__init__", script(method(cn, C, "__init__").body))
-    emit("regenerate", f"{C}._regenerate_network", script(method(cn, C, "_regenerate_network").body))
+         guarded(method(cn, C, "set_non_local"),
+                 ("self._non_local != non_local", "non_local != self._non_local",
+                  "not self._non_local == non_local"),
+                 ("self._non_local == non_local", "non_local == self._non_local")))
+    emit("init", f"{C}.__init__", script(normalise(method(cn, C, "__init__"))))
+    emit("regenerate", f"{C}._regenerate_network",
+         script(normalise(method(cn, C, "_regenerate_network"))))
     emit("thresholdFromLinkDensity", f"{C}.threshold_from_link_density",
-         script(method(cn, C, "threshold_from_link_density").body))
+         script(normalise(method(cn, C, "threshold_from_link_density"))))
+    defs.append(quantile_index(method(cn, C, "threshold_from_link_density")))
+    emit("linkDensityFunction", f"{C}.link_density_function",
+         script(normalise(method(cn, C, "link_density_function"))))
     H = "HilbertClimateNetwork"
-    emit("hilbertSetThreshold", f"{H}.set_threshold", script(method(hi, H, "set_threshold").body))
-    emit("hilbertSetDirected", f"{H}.set_directed", script(method(hi, H, "set_directed").body))
+    emit("hilbertSetThreshold", f"{H}.set_threshold",
+         script(normalise(method(hi, H, "set_threshold"))))
+    emit("hilbertSetDirected", f"{H}.set_directed", script(normalise(method(hi, H, "set_directed"))))
     a, b = branches(method(hi, H, "_set_directed"), "calculate_coherence")
     emit("setDirectedCalc", f"{H}._set_directed, branch calculate_coherence=True", a)
     emit("setDirectedNoCalc", f"{H}._set_directed, branch calculate_coherence=False", b)
-    emit("hilbertInit", f"{H}.__init__", script(method(hi, H, "__init__").body, hilbert_init=True))
+    emit("hilbertInit", f"{H}.__init__",
+         script(normalise(method(hi, H, "__init__")), hilbert_init=True))
+    defs.append("/-- accessors of `ClimateNetwork` that are trivial getters in the current source "
+                "(inlined before matching) -/\n"
+                "def getters : List (String × String) := ["
+                + ", ".join(f'("{k}", "{v}")' for k, v in sorted(GETTERS.items())) + "]\n")
     # which classes of the climate package override the setters (dynamic dispatch of
     # `self.set_threshold` inside the inherited methods)
     over = []
